@@ -398,6 +398,8 @@ func locCond(l Loc, a string) string {
 	switch {
 	case l.All:
 		return "true"
+	case l.Pred != "":
+		return strings.ReplaceAll(l.Pred, "%ADDR%", a)
 	case l.AllTag != 0:
 		return fmt.Sprintf("(= (ftag %s) %d)", a, l.AllTag)
 	case l.RowsOf != "":
